@@ -42,6 +42,10 @@ def row_strategy():
                 # an extended character: its basic stand-in, then the two-byte code that replaces it
                 p = ["ex", draw(st.sampled_from(EXT_WORDS)), draw(st.sampled_from("AEOUaeiou"))]
                 ln = 1
+            elif kind == 1 and draw(st.integers(0, 2)) == 0:
+                # a mid-row code (italics on / plain): occupies one cell, displayed as a blank
+                p = ["mid", draw(st.booleans())]
+                ln = 1
             elif kind == 0:
                 p = ["sp", draw(st.sampled_from([0, 1, 2, 3, 4, 5, 6, 7, 8, 10, 11, 12, 13, 14, 15]))]
                 ln = 1
@@ -54,9 +58,12 @@ def row_strategy():
                 break
             parts.append(p)
             n += sep + ln
-        if not parts:
-            parts = [["w", "ok"]]
+        if not any(p[0] != "mid" for p in parts):
+            parts = parts[:1] + [["w", "ok"]]
+            n = sum(len(p[1]) if p[0] == "w" else 1 for p in parts) + len(parts) - 1
         fill = draw(st.sampled_from([None, None, None, 32, 31, 30]))
+        if any(p[0] == "mid" for p in parts):
+            fill = None      # (rows with a mid-row code are not padded to the last column)
         if fill and n + 2 <= fill:
             # pad the row to exactly `fill` columns (rows of 31 / 32 columns are legal)
             parts.append(["w", ("x" * 40)[:fill - n - 1]])
@@ -116,6 +123,11 @@ def _row_words(parts, d):
         if p[0] == "w":
             pending += p[1]
             text += p[1]
+        elif p[0] == "mid":
+            if pending:
+                words += R.char_words(pending)
+                pending = ""
+            words += [R.midrow(italic=p[1])] * d
         elif p[0] == "ex":
             pending += p[2]
             words += R.char_words(pending)
@@ -179,7 +191,27 @@ def _squash(s):
     return "".join(s.split())
 
 
+def midrow_after_full_row(case):
+    """Input shape of the open finding: a row that begins with a mid-row code, sent right after a
+    row of 32 columns (SCCReader appends the blank of that code to the previous row's text, which
+    then counts 33 characters and is rejected)."""
+    if case["mode"] == "roll":
+        seq = [case["rows"]]
+    else:
+        seq = [b["rows"] for b in case["bursts"]]
+    flat = [r for rows in seq for r in rows]
+    for a, b in zip(flat, flat[1:]):
+        if b["parts"] and b["parts"][0][0] == "mid":
+            _w, text = _row_words(a["parts"], 1)
+            if len(text) + a.get("indent", 0) >= 32 or len(text) >= 32:
+                return True
+    return False
+
+
 def check_stream(case, rec):
+    if rec.is_open("scc-midrow-at-row-start-pads-previous-row") and midrow_after_full_row(case):
+        rec.excluded_known("scc-midrow-at-row-start-pads-previous-row")
+        return
     doc, rows = build(case)
     reader = SP.used_reader(case.get("reuse"), doc)
     if case.get("reuse"):
